@@ -1,2 +1,6 @@
 -- Root of the `ArtapModel` library: models (core Lean only), helper proofs, property theorems.
 import ArtapModel.Props.C01
+import ArtapModel.Props.C02
+import ArtapModel.Props.C07
+import ArtapModel.Props.C09
+import ArtapModel.Props.C11
